@@ -275,6 +275,10 @@ func (g *CallGraph) Cycles(fns []*ssa.Function) [][]*ssa.Function {
 		on[v] = true
 		self := false
 		for _, cs := range g.Sites[v] {
+			if cc := cs.Instr.Common(); cc.IsInvoke() && cc.Method.Name() == "Error" && types.Identical(cc.Value.Type(), types.Universe.Lookup("error").Type()) {
+				// err.Error() on an error value: nesting is bounded by the wrapping depth of the value, not by control flow
+				continue
+			}
 			for _, w := range cs.Callees {
 				if !in[w] {
 					continue
